@@ -71,6 +71,23 @@ def fetchSubseq (a : Ascii) (ssi : Ssi) (sq : Sq) (source : Bytes) (start end_ :
     let nm := source ++ #[47] ++ decBytes start ++ #[45] ++ decBytes end_
     (a, { sq with start := start, end_ := end_, C := 0, W := sq.n, L := if len > 0 then len else -1, name := nm, source := source }, .ok)
 
+/-! ## `esl_ssi_FindNumber` / `sqascii_PositionByNumber` -/
+
+/-- byte-wise key order of the index (`strcmp` on keys without NUL) -/
+def keyLe (x y : SsiEntry) : Bool := !(y.key.toList < x.key.toList)
+
+/-- the primary keys in index order -/
+def sortedPrim (s : Ssi) : List SsiEntry := s.prim.toList.mergeSort keyLe
+
+/-- `esl_ssi_FindNumber(ssi, n)`: the `n`-th primary key (0-based) in index order; `none` = `eslENOTFOUND` -/
+def findNumber (s : Ssi) (n : Nat) : Option SsiEntry := (sortedPrim s)[n]?
+
+/-- `sqascii_PositionByNumber(n)` -/
+def positionByNumber (a : Ascii) (s : Ssi) (n : Nat) : Ascii × Status :=
+  match findNumber s n with
+  | none => (a, .enotfound)
+  | some e => position a e.roff.toNat
+
 /-- the copy loop of `sqascii_Echo`: whole buffers while `boff + nc ≤ eoff` -/
 def echoLoop : Nat → Ascii → Int → Bytes → Ascii × Bytes × Status
   | 0, a, _, out => (a, out, .fault)
